@@ -60,7 +60,7 @@ pub fn selftest_quick() -> Result<(), String> {
         }
     }
     // every other literal used as a root by a check
-    let literals: Vec<&str> = hist::PERPETUAL.iter().copied().chain(hist::MATE_ROOTS.iter().copied()).chain(c14::POSITIONS.iter().filter_map(|p| p.strip_prefix("fen "))).chain(c14::DEAD.iter().filter_map(|p| p.strip_prefix("fen "))).collect();
+    let literals: Vec<&str> = hist::PERPETUAL.iter().copied().chain(hist::MATE_ROOTS.iter().copied()).chain(c14::POSITIONS.iter().filter_map(|p| p.strip_prefix("fen "))).chain(c14::DEAD.iter().filter_map(|p| p.strip_prefix("fen "))).chain(c19::OUTCOMES.iter().copied()).collect();
     for f in literals {
         let p = Pos::from_fen(f).map_err(|e| format!("literal unreadable: {} ({})", f, e))?;
         if !p.sane() {
